@@ -122,6 +122,7 @@ class World:
         self.dead = False
         self.last_snap = None
         self.serial_noise = None  # a random.Random: send grammar-equivalent serialisations
+        self.forge = None  # a random.Random: some commands carry a ':prefix' naming another user (to be ignored)
         self.lost_barrier = None
         self.stalled = None
         self.derived = {}  # cid -> {channel: set(nicks)}: roster reconstructed from what the client was told
@@ -443,6 +444,13 @@ class World:
             # the line went out in another serialisation of the same message (and possibly with excess parameters):
             # whatever differs from the model now also concerns the parsing property
             exp.props = set(exp.props) | {"C13"}
+        if self.forge is not None and not line.lstrip().startswith(":") and self.forge.random() < 0.2:
+            # a client may put any ':source' in front of its command: it still acts as itself, and is announced as itself
+            others = [u.source for n, u in pre.users.items() if n != pre.conn[cid]["nick"]]
+            if others:
+                line = ":%s %s" % (self.forge.choice(others), line.lstrip())
+                exp.props = set(exp.props) | {"C02", "C13"}
+                self.log(cid, "(sent with a forged prefix) " + line)
         c.send(line)
         actor_closed = None
         lines = []
